@@ -1,11 +1,14 @@
 package main
 
 import (
+	"go/constant"
 	"go/token"
 	"go/types"
 	"reflect"
+	"sort"
 	"strconv"
 	"strings"
+	"sync"
 )
 
 // pb-lite: a minimal protoreflect.Message view over *generated Go structs*,
@@ -38,6 +41,8 @@ type pbFD struct {
 	wrap   types.Type // oneof member: the wrapper pointer type
 	oneof  int        // struct field index of the oneof interface field, or −1
 	list   bool
+	isMap  bool
+	mapKV  *[2]pbFD // map field: the key and value descriptors
 }
 type pbMD struct {
 	st *types.Struct
@@ -45,8 +50,136 @@ type pbMD struct {
 }
 type pbFDs struct{ fds []pbFD }
 
+// pbList: the protoreflect.List view of a repeated field of a struct-view
+// message (read-only: Len, Get, IsValid)
+type pbList struct {
+	fd pbFD // the element's field descriptor (list = false)
+	sl Slice
+	et types.Type
+}
+
+// pbMap: the protoreflect.Map view of a map field (read-only: Len, Range, Has,
+// Get, IsValid); Range visits the entries in an order the engine chooses
+// freely (every permutation within engine.maporder), as protobuf-go documents
+type pbMap struct {
+	fd pbFD
+	m  *Map
+	mt *types.Map
+}
+
+// one key/value descriptor pair per map field, so two descriptors of the same
+// field compare equal
+var pbMapKVMu sync.Mutex
+var pbMapKVs = map[*types.Struct]map[int]*[2]pbFD{}
+
+func pbMapKV(st *types.Struct, i int, mk func() *[2]pbFD) *[2]pbFD {
+	pbMapKVMu.Lock()
+	defer pbMapKVMu.Unlock()
+	if pbMapKVs[st] == nil {
+		pbMapKVs[st] = map[int]*[2]pbFD{}
+	}
+	if pbMapKVs[st][i] == nil {
+		pbMapKVs[st][i] = mk()
+	}
+	return pbMapKVs[st][i]
+}
+
+var pbMapType = types.NewNamed(types.NewTypeName(token.NoPos, nil, "engine.pbMap", nil), types.NewStruct(nil, nil), nil)
+
+// pbED / pbEVs / pbEV: the enum descriptor of an enum-typed field, its values
+// and one value; names and numbers come from the generated constants
+type pbED struct{ named *types.Named }
+type pbEVs struct{ vals []pbEV }
+type pbEV struct {
+	name   string
+	number int64
+}
+
+var pbListType = types.NewNamed(types.NewTypeName(token.NoPos, nil, "engine.pbList", nil), types.NewStruct(nil, nil), nil)
+var pbEDType = types.NewNamed(types.NewTypeName(token.NoPos, nil, "engine.pbED", nil), types.NewStruct(nil, nil), nil)
+var pbEVsType = types.NewNamed(types.NewTypeName(token.NoPos, nil, "engine.pbEVs", nil), types.NewStruct(nil, nil), nil)
+var pbEVType = types.NewNamed(types.NewTypeName(token.NoPos, nil, "engine.pbEV", nil), types.NewStruct(nil, nil), nil)
+
 func isEngineType(t types.Type) bool {
-	return t == types.Type(pbMsgType) || t == types.Type(pbFDType) || t == types.Type(pbMDType) || t == types.Type(pbFDsType)
+	return t == types.Type(pbMsgType) || t == types.Type(pbFDType) || t == types.Type(pbMDType) || t == types.Type(pbFDsType) ||
+		t == types.Type(pbListType) || t == types.Type(pbMapType) || t == types.Type(pbEDType) || t == types.Type(pbEVsType) || t == types.Type(pbEVType)
+}
+
+// pbFieldGoType: the Go type of the field's storage (the struct field, or the
+// only field of the oneof wrapper)
+func pbFieldGoType(r pbFD) types.Type {
+	if r.idx >= 0 {
+		return r.st.Field(r.idx).Type()
+	}
+	if wp, ok := r.wrap.(*types.Pointer); ok {
+		if ws, ok := wp.Elem().Underlying().(*types.Struct); ok && ws.NumFields() > 0 {
+			return ws.Field(0).Type()
+		}
+	}
+	return nil
+}
+
+// pbEnumValues: the generated constants of an enum type, in declaration
+// (source) order. protoc-gen-go names them <Prefix>_<VALUE> where the prefix is
+// the enum's Go name for a top-level enum and the parent message's Go name for
+// a nested one.
+func (c *Ctx) pbEnumValues(named *types.Named) []pbEV {
+	scope := named.Obj().Pkg().Scope()
+	tn := named.Obj().Name()
+	prefix := tn + "_"
+	type cv struct {
+		ev  pbEV
+		pos token.Pos
+	}
+	var found []cv
+	for _, n := range scope.Names() {
+		k, ok := scope.Lookup(n).(*types.Const)
+		if !ok || !types.Identical(k.Type(), named) {
+			continue
+		}
+		// only the constants protoc-gen-go wrote next to the type (other
+		// generators add aliases in files of their own)
+		if c.prog.Fset.File(k.Pos()) != c.prog.Fset.File(named.Obj().Pos()) {
+			continue
+		}
+		num, _ := constant.Int64Val(k.Val())
+		name := n
+		switch {
+		case strings.HasPrefix(n, prefix):
+			name = n[len(prefix):]
+		case strings.LastIndex(tn, "_") >= 0 && strings.HasPrefix(n, tn[:strings.LastIndex(tn, "_")+1]):
+			name = n[strings.LastIndex(tn, "_")+1:]
+		default:
+			c.errf("pb-lite: enum constant %s of %s has no recognisable prefix", n, tn)
+		}
+		found = append(found, cv{pbEV{name: name, number: num}, k.Pos()})
+	}
+	sort.Slice(found, func(i, j int) bool { return found[i].pos < found[j].pos })
+	out := make([]pbEV, len(found))
+	for i, f := range found {
+		out[i] = f.ev
+	}
+	return out
+}
+
+func (c *Ctx) pbMapOf(fd pbFD, raw Value, ft types.Type) Value {
+	m, _ := raw.(*Map)
+	mt, ok := ft.Underlying().(*types.Map)
+	if !ok {
+		c.errf("pb-lite: map field %s stored as %s", fd.name, ft)
+	}
+	return c.mkPV("map", Iface{t: pbMapType, v: pbMap{fd: fd, m: m, mt: mt}})
+}
+
+func (c *Ctx) pbListOf(fd pbFD, raw Value, ft types.Type) Value {
+	sl, _ := raw.(Slice)
+	st, ok := ft.Underlying().(*types.Slice)
+	if !ok {
+		c.errf("pb-lite: repeated field %s stored as %s", fd.name, ft)
+	}
+	efd := fd
+	efd.list = false
+	return c.mkPV("list", Iface{t: pbListType, v: pbList{fd: efd, sl: sl, et: st.Elem()}})
 }
 
 func protoTag(tag string) (wire string, number int, name string, ok bool) {
@@ -146,6 +279,19 @@ func (c *Ctx) pbFields(st *types.Struct, pt types.Type) []pbFD {
 			continue
 		}
 		if wire, num, name, ok := protoTag(st.Tag(i)); ok {
+			if mt, ok := f.Type().Underlying().(*types.Map); ok {
+				// map<K, V>: key and value descriptors from protobuf_key / protobuf_val
+				kw, _, _, _ := protoTag(`protobuf:"` + reflect.StructTag(st.Tag(i)).Get("protobuf_key") + `"`)
+				vw, _, _, _ := protoTag(`protobuf:"` + reflect.StructTag(st.Tag(i)).Get("protobuf_val") + `"`)
+				kv := pbMapKV(st, i, func() *[2]pbFD {
+					return &[2]pbFD{
+						{name: "key", number: 1, kind: pbKind(kw, mt.Key()), idx: -2, oneof: -1},
+						{name: "value", number: 2, kind: pbKind(vw, mt.Elem()), idx: -2, oneof: -1},
+					}
+				})
+				out = append(out, pbFD{name: name, number: num, kind: 11, idx: i, st: st, oneof: -1, isMap: true, mapKV: kv})
+				continue
+			}
 			_, isSlice := f.Type().Underlying().(*types.Slice)
 			kind := pbKind(wire, f.Type())
 			out = append(out, pbFD{name: name, number: num, kind: kind, idx: i, st: st, oneof: -1, list: isSlice && kind != 12})
@@ -242,6 +388,8 @@ func (c *Ctx) pbIsSet(fd pbFD, raw Value) *Term {
 		return Bool(v.len > 0)
 	case *Ptr:
 		return Bool(v != nil)
+	case *Map:
+		return Bool(v != nil && len(v.keys) > 0)
 	case Iface:
 		return Bool(v.t != nil)
 	case Opaque:
@@ -302,11 +450,21 @@ func (c *Ctx) engineInvoke(recv Iface, method string, args []Value) (Value, bool
 				if !present {
 					continue
 				}
+				if fd.isMap {
+					if m, _ := raw.(*Map); m == nil || len(m.keys) == 0 {
+						continue
+					}
+					keep := c.invoke(cb, []Value{c.pbFDIface(fd), c.pbMapOf(fd, raw, ft)}).(*Term)
+					if !c.branch(keep) {
+						return nil, true
+					}
+					continue
+				}
 				if fd.list {
 					if sl, ok := raw.(Slice); ok && sl.len == 0 {
 						continue
 					}
-					keep := c.invoke(cb, []Value{c.pbFDIface(fd), c.mkPV("list", Iface{t: pbOpaqueType, v: pbOpaque{what: "list value of repeated field " + fd.name}})}).(*Term)
+					keep := c.invoke(cb, []Value{c.pbFDIface(fd), c.pbListOf(fd, raw, ft)}).(*Term)
 					if !c.branch(keep) {
 						return nil, true
 					}
@@ -326,7 +484,7 @@ func (c *Ctx) engineInvoke(recv Iface, method string, args []Value) (Value, bool
 		case "Mutable", "NewField":
 			fd := args[0].(Iface).v.(pbFD)
 			c.pbCheckField(r, fd)
-			if fd.kind != 11 || fd.list {
+			if fd.kind != 11 || fd.list || fd.isMap {
 				c.errf("pb-lite %s: only singular message fields are modelled (field %s)", method, fd.name)
 			}
 			if r.p == nil {
@@ -379,6 +537,12 @@ func (c *Ctx) engineInvoke(recv Iface, method string, args []Value) (Value, bool
 			if !present {
 				wst := fd.wrap.(*types.Pointer).Elem().Underlying().(*types.Struct)
 				return c.pbFieldValue(fd, zero(wst.Field(0).Type()), wst.Field(0).Type()), true
+			}
+			if fd.list {
+				return c.pbListOf(fd, raw, ft), true
+			}
+			if fd.isMap {
+				return c.pbMapOf(fd, raw, ft), true
 			}
 			return c.pbFieldValue(fd, raw, ft), true
 		case "Set":
@@ -467,6 +631,87 @@ func (c *Ctx) engineInvoke(recv Iface, method string, args []Value) (Value, bool
 		}
 	case pbOpaque:
 		c.errf("pb-lite: %s: method %s not modelled", r.what, method)
+	case pbList:
+		switch method {
+		case "IsValid":
+			return Bool(true), true
+		case "Len":
+			return BV(uint64(r.sl.len), 64), true
+		case "Get":
+			i := c.concretize(args[0].(*Term), r.sl.len)
+			return c.pbFieldValue(r.fd, r.sl.back.e[r.sl.off+i], r.et), true
+		}
+	case pbMap:
+		n := 0
+		if r.m != nil {
+			n = len(r.m.keys)
+		}
+		switch method {
+		case "IsValid":
+			return Bool(true), true
+		case "Len":
+			return BV(uint64(n), 64), true
+		case "Range":
+			cb := args[0]
+			rest := make([]int, n)
+			for k := range rest {
+				rest[k] = k
+			}
+			symbolic := n > 1 && n <= c.mapOrderMax
+			for len(rest) > 0 {
+				pick := 0
+				if symbolic && len(rest) > 1 {
+					pick = c.chooseFree(len(rest))
+				}
+				idx := rest[pick]
+				rest = append(append([]int{}, rest[:pick]...), rest[pick+1:]...)
+				k := c.pbFieldValue(r.fd.mapKV[0], r.m.keys[idx], r.mt.Key())
+				v := c.pbFieldValue(r.fd.mapKV[1], r.m.vals[idx], r.mt.Elem())
+				keep := c.invoke(cb, []Value{k, v}).(*Term)
+				if !c.branch(keep) {
+					return nil, true
+				}
+			}
+			return nil, true
+		}
+	case pbED:
+		switch method {
+		case "Values":
+			return Iface{t: pbEVsType, v: pbEVs{c.pbEnumValues(r.named)}}, true
+		case "Name", "FullName":
+			return strConst(r.named.Obj().Name()), true
+		}
+	case pbEVs:
+		switch method {
+		case "Len":
+			return BV(uint64(len(r.vals)), 64), true
+		case "Get":
+			i := c.concretize(args[0].(*Term), len(r.vals))
+			return Iface{t: pbEVType, v: r.vals[i]}, true
+		case "ByNumber":
+			n := args[0].(*Term)
+			for _, ev := range r.vals {
+				if c.branch(Cmp("=", n, BV(uint64(ev.number), n.width))) {
+					return Iface{t: pbEVType, v: ev}, true
+				}
+			}
+			return Iface{}, true
+		case "ByName":
+			name := args[0].(*Str)
+			for _, ev := range r.vals {
+				if c.branch(c.strEq(name, strConst(ev.name))) {
+					return Iface{t: pbEVType, v: ev}, true
+				}
+			}
+			return Iface{}, true
+		}
+	case pbEV:
+		switch method {
+		case "Name", "FullName":
+			return strConst(r.name), true
+		case "Number":
+			return BV(uint64(r.number), 32), true
+		}
 	case pbFD:
 		switch method {
 		case "Name", "FullName", "JSONName", "TextName":
@@ -478,11 +723,36 @@ func (c *Ctx) engineInvoke(recv Iface, method string, args []Value) (Value, bool
 		case "IsList":
 			return Bool(r.list), true
 		case "IsMap":
-			return Bool(false), true
+			return Bool(r.isMap), true
+		case "MapKey":
+			if !r.isMap {
+				return Iface{}, true
+			}
+			return c.pbFDIface(r.mapKV[0]), true
+		case "MapValue":
+			if !r.isMap {
+				return Iface{}, true
+			}
+			return c.pbFDIface(r.mapKV[1]), true
 		case "HasPresence":
 			return Bool(r.kind == 11 || r.idx < 0), true
 		case "ContainingOneof":
 			return Iface{}, true
+		case "Enum":
+			if r.kind != 14 {
+				return Iface{}, true
+			}
+			et := pbFieldGoType(r)
+			if sl, ok := et.(*types.Slice); ok {
+				et = sl.Elem()
+			}
+			if pt, ok := et.(*types.Pointer); ok {
+				et = pt.Elem()
+			}
+			if named, ok := et.(*types.Named); ok && named.Obj().Pkg() != nil {
+				return Iface{t: pbEDType, v: pbED{named}}, true
+			}
+			c.errf("pb-lite: enum type of field %s", r.name)
 		case "Message":
 			if r.kind != 11 {
 				return Iface{}, true
